@@ -173,10 +173,23 @@ def sprintf(ex, st, a, ins, event=None):
         verb = f[j]
         if verb == '%': lit += '%'; i = j + 1; continue
         if lit: parts.append(z3.StringVal(lit)); lit = ''
-        v = vals[vi] if vi < len(vals) else None; vi += 1
+        if vi >= len(vals):
+            parts.append(z3.StringVal('%!' + verb + '(MISSING)')); vi += 1; i = j + 1; continue      # fmt: too few operands
+        v = vals[vi]; vi += 1
         parts.append(fmt_value(ex, st, v, verb, f[i + 1:j]))
         i = j + 1
     if lit: parts.append(z3.StringVal(lit))
+    if vi < len(vals):
+        # fmt: operands left over are reported as %!(EXTRA type=value, ...)
+        ex_parts = [z3.StringVal('%!(EXTRA ')]
+        for k, v in enumerate(vals[vi:]):
+            inner = v.val if isinstance(v, IfaceV) else v
+            if isinstance(inner, Lazy): inner = ex.materialise(st, inner)
+            if k: ex_parts.append(z3.StringVal(', '))
+            if z3.is_expr(inner) and z3.is_string(inner): ex_parts += [z3.StringVal('string='), inner]
+            elif z3.is_expr(inner) and z3.is_bv(inner): ex_parts += [z3.StringVal('int='), z3.IntToStr(z3.BV2Int(inner, False))]
+            else: ex_parts.append(fresh_str(st, 'fmt.extra'))
+        parts += ex_parts + [z3.StringVal(')')]
     if not parts: return z3.StringVal('')
     return z3.Concat(*parts) if len(parts) > 1 else parts[0]
 
